@@ -187,7 +187,13 @@ func TestC04(t *testing.T) {
 			// crossing 65,535 needs the default / 16-bit limit or wider, and at
 			// least two large batches
 			o.Dict = rapid.SampledFrom([]string{"u32", "", "u16", "u64"}).Draw(t, "bigdict")
-			minb, maxb = 2, 4
+			minb, maxb = 3, 4
+			if pct(t, "bigreset", 50) {
+				// the reset regime at the 16-bit limit: a threshold above 1
+				// resets at every crossing whatever the reuse ratio is
+				v := rapid.SampledFrom([]float64{5, 1.5}).Draw(t, "bigthr")
+				o.ResetThreshold = &v
+			}
 		}
 		c, _ := genOptionHistory(t, historyPlan{MinBatches: minb, MaxBatches: maxb, Big: big, Knobs: gen.InDomain()})
 		c.Options = o
